@@ -28,7 +28,13 @@ pub fn generate_diagnostics<S: VersionStorer>(
         .iter()
         .filter_map(|package| {
             let result = compare_version(storer, matcher, &package.name, &package.version).ok()?;
-            create_diagnostic(package, &result)
+            let mut diagnostic = create_diagnostic(package, &result)?;
+            // LSP counts characters in UTF-16 code units, the parsers count bytes
+            if let Some((column, width)) = package.utf16_span(content) {
+                diagnostic.range.start.character = column;
+                diagnostic.range.end.character = column + width;
+            }
+            Some(diagnostic)
         })
         .collect()
 }
